@@ -186,6 +186,36 @@ func ruleT1(c *Ctx) {
 			return true
 		})
 		if len(names) == 0 {
+			// the same membership written as a lookup in a read-only table: TABLE[x] (a set) or
+			// TABLE[x] == K (the keys whose value is K)
+			var want ast.Expr
+			ast.Inspect(fd.Body, func(n ast.Node) bool {
+				if be, ok := n.(*ast.BinaryExpr); ok && be.Op == token.EQL {
+					if _, isIx := ast.Unparen(be.X).(*ast.IndexExpr); isIx {
+						want = be.Y
+					} else if _, isIx := ast.Unparen(be.Y).(*ast.IndexExpr); isIx {
+						want = be.X
+					}
+				}
+				return true
+			})
+			for _, kv := range readOnlyStringTable(c, p, fd) {
+				s, ok := constStr(info, kv.Key)
+				if !ok {
+					continue
+				}
+				if want != nil {
+					wv, ok1 := info.Types[want]
+					kvv, ok2 := info.Types[kv.Value]
+					if ok1 && ok2 && wv.Value != nil && kvv.Value != nil && wv.Value.ExactString() == kvv.Value.ExactString() {
+						names[s] = kv.Key
+					}
+				} else if id, ok := kv.Value.(*ast.Ident); ok && id.Name == "true" {
+					names[s] = kv.Key
+				}
+			}
+		}
+		if len(names) == 0 {
 			c.anchorMissing("T1", pr.pkg+"."+pr.fn+": member list")
 			continue
 		}
@@ -433,8 +463,25 @@ func ruleT2(c *Ctx) {
 // readOnlyStringTable: fd indexes a package-level map[string]T variable that is initialised by
 // a composite literal and never written anywhere in its package; its key/value pairs.
 func readOnlyStringTable(c *Ctx, p *packages.Package, fd *ast.FuncDecl) []*ast.KeyValueExpr {
+	for _, t := range readOnlyMapTables(c, p, fd) {
+		if m, ok := p.TypesInfo.TypeOf(t.Index.X).Underlying().(*types.Map); ok && isStringType(m.Key()) {
+			return t.Rows
+		}
+	}
+	return nil
+}
+
+type mapTable struct {
+	Index *ast.IndexExpr // the lookup in the function body
+	Var   *types.Var
+	Rows  []*ast.KeyValueExpr
+}
+
+// readOnlyMapTables: every lookup fd makes in a package-level map variable that is initialised
+// by a composite literal and never written, handed out or re-assigned anywhere in its package.
+func readOnlyMapTables(c *Ctx, p *packages.Package, fd *ast.FuncDecl) []mapTable {
 	info := p.TypesInfo
-	var tbl *types.Var
+	var out []mapTable
 	ast.Inspect(fd.Body, func(n ast.Node) bool {
 		ix, ok := n.(*ast.IndexExpr)
 		if !ok {
@@ -448,14 +495,19 @@ func readOnlyStringTable(c *Ctx, p *packages.Package, fd *ast.FuncDecl) []*ast.K
 		if !ok || v.Parent() != p.Types.Scope() {
 			return true
 		}
-		if m, ok := v.Type().Underlying().(*types.Map); ok && isStringType(m.Key()) {
-			tbl = v
+		if _, ok := v.Type().Underlying().(*types.Map); !ok {
+			return true
+		}
+		if rows := readOnlyRowsOf(p, v); rows != nil {
+			out = append(out, mapTable{ix, v, rows})
 		}
 		return true
 	})
-	if tbl == nil {
-		return nil
-	}
+	return out
+}
+
+func readOnlyRowsOf(p *packages.Package, tbl *types.Var) []*ast.KeyValueExpr {
+	info := p.TypesInfo
 	var lit *ast.CompositeLit
 	written := false
 	refersTo := func(e ast.Expr) bool {
